@@ -274,7 +274,7 @@ def find_stmt(fn: ast.AST, pred: Callable[[ast.stmt], bool]) -> List[ast.stmt]:
 def assigned_names(target: ast.AST) -> List[str]:
     out = []
     for n in ast.walk(target):
-        if isinstance(n, ast.Name):
+        if isinstance(n, ast.Name) and isinstance(n.ctx, ast.Store):
             out.append(n.id)
     return out
 
